@@ -289,12 +289,25 @@ theorem removeFiltered_exact (l : List Rule) (idx : Nat) (vals : List String) (h
     simpa using this
 
 theorem removeFilteredReturnsEffects_exact (l : List Rule) (idx : Nat) (vals : List String)
-    (h : InRange idx vals l) (hne : vals ≠ []) :
+    (h : InRange idx vals l) :
     removeFilteredReturnsEffects l idx vals =
       .ok ((Spec.removeFiltered l idx vals).1, Spec.getFiltered l idx vals) := by
   unfold removeFilteredReturnsEffects
-  have : vals.isEmpty = false := by cases vals <;> simp_all
-  rw [this, partitionFiltered_spec idx vals l h]; rfl
+  rw [partitionFiltered_spec idx vals l h]; rfl
+
+theorem partitionFiltered_noValues (idx : Nat) (l : List Rule) : partitionFiltered idx [] l = .ok (l, []) := by
+  induction l with
+  | nil => rfl
+  | cons r rs ih => simp [partitionFiltered, matchesFrom, ih]
+
+/-- a filter without values selects every rule, whatever the field index - for the read, the removal of permission rules
+    and the removal of role assignments alike -/
+theorem emptyFilter_selects_all (l : List Rule) (idx : Nat) :
+    getFiltered l idx [] = .ok l ∧ removeFiltered l idx [] = .ok ([], !l.isEmpty) ∧
+      removeFilteredReturnsEffects l idx [] = .ok ([], l) := by
+  simp [getFiltered, removeFiltered, removeFilteredReturnsEffects, partitionFiltered_noValues, Except.map]
+
+example : removeFilteredReturnsEffects [["alice", "admin"], ["bob", "admin"]] 0 [] = .ok ([], [["alice", "admin"], ["bob", "admin"]]) := by decide
 
 theorem removeFiltered_nodup (l : List Rule) (idx : Nat) (vals : List String) (hd : l.Nodup) :
     (Spec.removeFiltered l idx vals).1.Nodup := hd.filter _
